@@ -115,6 +115,7 @@ func (s *gSchema) text() string {
 // ---------------------------------------------------------------------------------------
 
 type sgen struct {
+	wild    bool
 	r       *rng.R
 	s       *gSchema
 	strDict []string // dictionaries of string fields
@@ -244,8 +245,11 @@ func (g *sgen) classify(owner *gDef, f gField) {
 }
 
 // genSchema draws a schema: 1..3 roots, up to 10 types, up to 6 fields each.
-func genSchema(r *rng.R, pkg string) (*gSchema, map[string]int) {
-	g := &sgen{r: r, s: &gSchema{Pkg: pkg}, feat: map[string]int{}}
+//
+// wild: the shapes stefc refuses (see sanitize) are NOT removed, and with some probability one
+// more refused shape is planted: such a schema is expected to be refused by the compiler.
+func genSchema(r *rng.R, pkg string, wild bool) (*gSchema, map[string]int) {
+	g := &sgen{r: r, s: &gSchema{Pkg: pkg}, feat: map[string]int{}, wild: wild}
 	nRoots := 1
 	switch x := r.Intn(10); {
 	case x >= 8:
@@ -352,9 +356,71 @@ func genSchema(r *rng.R, pkg string) (*gSchema, map[string]int) {
 	}
 	g.ensureReferenced()
 	g.assignDictStructs()
-	sanitize(g.s, nil, g.feat)
+	sanitize(g.s, nil, g.feat, wild)
+	if wild {
+		g.plantRefused()
+	}
 	g.recursionFeatures()
 	return g.s, g.feat
+}
+
+// plantRefused (wild mode) plants one more shape that stefc refuses: a struct dictionary not
+// named after its struct, one dictionary on a string and a bytes field, a dictionary on an
+// array element type, or a struct that contains itself through a non-optional field.
+func (g *sgen) plantRefused() {
+	var structs []*gDef
+	for _, d := range g.s.Defs {
+		if d.Kind == "struct" && len(d.Fields) > 0 {
+			structs = append(structs, d)
+		}
+	}
+	if len(structs) == 0 {
+		return
+	}
+	d := structs[g.r.Intn(len(structs))]
+	switch g.r.Intn(6) {
+	case 0:
+		for _, x := range structs {
+			if x.Dict != "" {
+				x.Dict = x.Dict + "Dict"
+				g.feat["wild-struct-dict-name"]++
+				return
+			}
+		}
+	case 1:
+		if len(d.Fields) < 9 {
+			n := len(d.Fields)
+			d.Fields = append(d.Fields, gField{Name: fmt.Sprintf("F%d", n+1), Ty: gType{Prim: "string", Dict: "DMIX"}},
+				gField{Name: fmt.Sprintf("F%d", n+2), Ty: gType{Prim: "bytes", Dict: "DMIX"}})
+			g.feat["wild-dict-shared-string-bytes"]++
+		}
+	case 2:
+		if len(d.Fields) < 10 {
+			d.Fields = append(d.Fields, gField{Name: fmt.Sprintf("F%d", len(d.Fields)+1), Ty: gType{Array: true, Prim: "string", Dict: "DARR"}})
+			g.feat["wild-array-elem-dict"]++
+		}
+	case 3:
+		if len(d.Fields) < 10 {
+			d.Fields = append(d.Fields, gField{Name: fmt.Sprintf("F%d", len(d.Fields)+1), Ty: gType{Ref: d.Name}})
+			g.feat["wild-self-containment"]++
+		}
+	case 4, 5:
+		if len(d.Fields) >= 10 || g.s.def("W1") != nil {
+			return
+		}
+		w := &gDef{Kind: "struct", Name: "W1", Dict: "W1", rank: 2000, Fields: []gField{{Name: "F1", Ty: gType{Prim: "int64"}}}}
+		g.s.Defs = append(g.s.Defs, w)
+		f := gField{Name: fmt.Sprintf("F%d", len(d.Fields)+1), Ty: gType{Ref: "W1"}, Optional: true}
+		g.feat["wild-optional-dict-struct"]++
+		if g.r.Bool() {
+			o := &gDef{Kind: "oneof", Name: "WO1", Fields: []gField{{Name: "A1", Ty: gType{Prim: "bool"}}, {Name: "A2", Ty: gType{Ref: "W1"}}}}
+			g.s.Defs = append(g.s.Defs, o)
+			f = gField{Name: f.Name, Ty: gType{Ref: "WO1"}}
+			g.feat["wild-optional-dict-struct"]--
+			g.feat["wild-oneof-alt-dict-struct"]++
+		}
+		d.Fields = append(d.Fields, f)
+	}
 }
 
 // typeEdges lists the definitions a definition refers to (enums excluded).
@@ -395,101 +461,82 @@ func onCycle(s *gSchema, name string) bool {
 	return dfs(name)
 }
 
-// sanitize removes two shapes that the parser accepts but for which stefc generates code that
-// does not compile (known defects, triggered deliberately by the hazard schemas instead):
-//   - a string/bytes dictionary that is used ONLY by array element types (the dictionary is
-//     never declared in WriterState/ReaderState): the modifier is dropped from the element type
-//   - a dictionary struct on a recursion cycle: the dict modifier is dropped
-//   - an optional field of dictionary-struct type: the dict modifier of the struct is dropped
-//   - optional fields inside a dictionary struct: they become non-optional
-//   - a oneof alternative of dictionary-struct type: the dict modifier of the struct is dropped
-//   - a multimap key of dictionary-struct type with a dictionary-struct field: the nested struct
-//     loses its dict modifier
-//   - a dictionary struct that can reach a recursive type: the dict modifier is dropped
-//   - []string / []bytes fields with different dict modifiers in one schema: made uniform
+// sanitize makes a drawn schema one that stefc generates WORKING code for.
+//
+// Shapes that stefc refuses since repo commit 90dfff4 (stefc/generator/validate.go) - removed in
+// the normal ("legal") mode only; in wild mode they stay, the schema is then expected to be
+// refused by stefc and is counted as such by lib/hgen.py:
+//   - a dict modifier on an array element type: dropped
+//   - an optional field of dictionary-struct type: the struct loses its dict modifier
+//   - a oneof alternative of dictionary-struct type: the struct loses its dict modifier
+//   - a recursive dictionary struct: it loses its dict modifier
+//
+// Shapes that stefc still ACCEPTS and generates broken code for (recorded known findings,
+// triggered by the fixed schemas fx_dictrec / fx_dictkey) - removed in both modes:
+//   - a dictionary struct that can reach a recursive type (Write panics in byteSize)
+//   - a multimap key of dictionary-struct type with a dictionary-struct field (New<Root>Reader
+//     panics): the nested struct loses its dict modifier
+//
+// No longer restricted (repaired in the repository): optional fields inside dictionary structs
+// (82431a4), mixed dict modifiers on []string fields (refused as array element dictionaries).
 //
 // Definitions named in frozen (the A part of an evolution pair) are never changed: if one of
 // them would have to be, sanitize returns false and the caller draws again.
-func sanitize(s *gSchema, frozen map[string]bool, feat map[string]int) bool {
-	// definitions reachable from a root (the parser prunes the others: their uses do not count)
-	reach := map[string]bool{}
-	var mark func(n string)
-	mark = func(n string) {
-		if reach[n] || s.def(n) == nil {
+func sanitize(s *gSchema, frozen map[string]bool, feat map[string]int, wild bool) bool {
+	ok := true
+	dropDict := func(x *gDef, why string) {
+		if x.Dict == "" {
 			return
 		}
-		reach[n] = true
-		for _, to := range typeEdges(s, s.def(n)) {
-			mark(to)
+		if frozen[x.Name] {
+			ok = false
+			return
 		}
+		x.Dict = ""
+		feat["sanitized-"+why]++
 	}
-	for _, d := range s.Defs {
-		if d.Root {
-			mark(d.Name)
-		}
-	}
-	plain := map[string]bool{}
-	for _, d := range s.Defs {
-		if !reach[d.Name] {
-			continue
-		}
-		for _, f := range d.Fields {
-			if f.Ty.Dict != "" && !f.Ty.Array {
-				plain[f.Ty.Dict] = true
+	if !wild {
+		for _, d := range s.Defs {
+			var ts []*gType
+			for i := range d.Fields {
+				ts = append(ts, &d.Fields[i].Ty)
 			}
-		}
-		if d.Kind == "multimap" {
-			for _, t := range []gType{d.Key, d.Val} {
-				if t.Dict != "" && !t.Array {
-					plain[t.Dict] = true
-				}
+			if d.Kind == "multimap" {
+				ts = append(ts, &d.Key, &d.Val)
 			}
-		}
-	}
-	ok := true
-	for _, d := range s.Defs {
-		for i := range d.Fields {
-			t := &d.Fields[i].Ty
-			if t.Array && t.Dict != "" && !plain[t.Dict] {
-				if frozen[d.Name] {
-					ok = false
-				} else {
-					t.Dict = ""
-					feat["sanitized-array-only-dict"]++
-				}
-			}
-		}
-		if d.Kind == "multimap" {
-			for _, t := range []*gType{&d.Key, &d.Val} {
-				if t.Array && t.Dict != "" && !plain[t.Dict] {
+			for _, t := range ts {
+				if t.Array && t.Dict != "" {
 					if frozen[d.Name] {
 						ok = false
 					} else {
 						t.Dict = ""
-						feat["sanitized-array-only-dict"]++
+						feat["sanitized-array-elem-dict"]++
 					}
 				}
 			}
 		}
-	}
-	// an OPTIONAL field of dictionary-struct type does not compile (known defect): the dictionary
-	// modifier goes (the struct is never on a cycle here, so nothing else changes)
-	for _, d := range s.Defs {
-		for _, f := range d.Fields {
-			x := s.def(f.Ty.Ref)
-			if d.Kind == "struct" && f.Optional && !f.Ty.Array && x != nil && x.Kind == "struct" && x.Dict != "" {
-				if frozen[x.Name] {
-					ok = false
-				} else {
-					x.Dict = ""
-					feat["sanitized-optional-dict-struct"]++
+		for _, d := range s.Defs {
+			for _, f := range d.Fields {
+				x := s.def(f.Ty.Ref)
+				if f.Ty.Array || x == nil || x.Kind != "struct" || x.Dict == "" {
+					continue
 				}
+				if d.Kind == "struct" && f.Optional {
+					dropDict(x, "optional-dict-struct")
+				}
+				if d.Kind == "oneof" {
+					dropDict(x, "oneof-alt-dict-struct")
+				}
+			}
+		}
+		for _, d := range s.Defs {
+			if d.Kind == "struct" && d.Dict != "" && onCycle(s, d.Name) {
+				dropDict(d, "recursive-dict-struct")
 			}
 		}
 	}
 	// a multimap KEY of dictionary-struct type that itself has a dictionary-struct field makes
-	// New<Root>Reader panic (known defect reader-panic-freeze: <Multimap>Decoder.Init freezes a
-	// zero-value key whose nested pointer is nil): the nested struct loses its dict modifier
+	// New<Root>Reader panic (known finding reader-panic-freeze)
 	for _, d := range s.Defs {
 		k := s.def(d.Key.Ref)
 		if d.Kind != "multimap" || d.Key.Array || k == nil || k.Kind != "struct" || k.Dict == "" {
@@ -497,51 +544,16 @@ func sanitize(s *gSchema, frozen map[string]bool, feat map[string]int) bool {
 		}
 		for _, f := range k.Fields {
 			x := s.def(f.Ty.Ref)
-			if !f.Ty.Array && x != nil && x.Kind == "struct" && x.Dict != "" {
-				if frozen[x.Name] {
-					ok = false
-				} else {
-					x.Dict = ""
-					feat["sanitized-dict-key-nested-dict"]++
-				}
-			}
-		}
-	}
-	// a oneof ALTERNATIVE of dictionary-struct type makes the reader panic when the choice comes
-	// back to it (known defect reader-panic-reset: resetContained() resets the frozen dictionary
-	// entry): the dictionary modifier goes
-	for _, d := range s.Defs {
-		if d.Kind != "oneof" {
-			continue
-		}
-		for _, f := range d.Fields {
-			x := s.def(f.Ty.Ref)
-			if !f.Ty.Array && x != nil && x.Kind == "struct" && x.Dict != "" {
-				if frozen[x.Name] {
-					ok = false
-				} else {
-					x.Dict = ""
-					feat["sanitized-oneof-alt-dict-struct"]++
-				}
-			}
-		}
-	}
-	for _, d := range s.Defs {
-		if d.Kind == "struct" && d.Dict != "" && onCycle(s, d.Name) {
-			if frozen[d.Name] {
-				ok = false
-			} else {
-				d.Dict = ""
-				feat["sanitized-recursive-dict-struct"]++
+			if !f.Ty.Array && x != nil && x.Kind == "struct" {
+				dropDict(x, "dict-key-nested-dict")
 			}
 		}
 	}
 	// a dictionary struct whose value can reach a recursive type panics in byteSize() when it is
-	// added to the encoder dictionary (known defect writer-panic-byteSize: the unselected
-	// pointer-stored oneof alternative / absent optional struct is dereferenced): dict dropped
+	// added to the encoder dictionary (known finding writer-panic-byteSize)
 	for _, d := range s.Defs {
-		if d.Kind != "struct" || d.Dict == "" {
-			continue
+		if d.Kind != "struct" || d.Dict == "" || onCycle(s, d.Name) {
+			continue // on a cycle itself: refused by stefc (wild mode) or handled above
 		}
 		seen := map[string]bool{}
 		var reachesCycle func(n string) bool
@@ -558,109 +570,14 @@ func sanitize(s *gSchema, frozen map[string]bool, feat map[string]int) bool {
 			return false
 		}
 		if reachesCycle(d.Name) {
-			if frozen[d.Name] {
-				ok = false
-			} else {
-				d.Dict = ""
-				feat["sanitized-dict-struct-reaches-recursion"]++
-			}
-		}
-	}
-	// all arrays of one primitive type share ONE generated Go type (StringArray, BytesArray) and
-	// with it one element codec: the dict modifier of one []string field silently applies to all
-	// of them or to none (known defect array-elem-dict-shared-type). Mixed uses are made uniform.
-	for _, prim := range []string{"string", "bytes"} {
-		var uses []*gType
-		var owners []string
-		for _, d := range s.Defs {
-			for i := range d.Fields {
-				if t := &d.Fields[i].Ty; t.Array && t.Prim == prim {
-					uses = append(uses, t)
-					owners = append(owners, d.Name)
-				}
-			}
-			if d.Kind == "multimap" {
-				for _, t := range []*gType{&d.Key, &d.Val} {
-					if t.Array && t.Prim == prim {
-						uses = append(uses, t)
-						owners = append(owners, d.Name)
-					}
-				}
-			}
-		}
-		mixed := false
-		for _, u := range uses {
-			if u.Dict != uses[0].Dict {
-				mixed = true
-			}
-		}
-		if !mixed {
-			continue
-		}
-		// the value every use must take: that of the frozen uses if they agree, else none
-		want, haveFrozen := "", false
-		for i, u := range uses {
-			if frozen[owners[i]] {
-				if haveFrozen && u.Dict != want {
-					ok = false
-				}
-				want, haveFrozen = u.Dict, true
-			}
-		}
-		if want != "" && !plain[want] {
-			want = ""
-		}
-		for i, u := range uses {
-			if u.Dict != want {
-				if frozen[owners[i]] {
-					ok = false
-				} else {
-					u.Dict = want
-					feat["sanitized-mixed-array-elem-dict"]++
-				}
-			}
-		}
-	}
-	// a dictionary struct whose value holds an optional field anywhere (its own fields, or fields
-	// of structs reachable from it) does not round-trip (known defect
-	// dict-struct-optional-presence: the encoder dictionary stores deep Clone()s, Clone drops the
-	// presence bits, values that differ only in presence share one entry and the reference
-	// numbering of writer and reader diverges): those fields become non-optional (a dictionary
-	// struct reaches no cycle at this point, so no recursion needs the modifier)
-	for _, d := range s.Defs {
-		if d.Kind != "struct" || d.Dict == "" {
-			continue
-		}
-		seen := map[string]bool{d.Name: true}
-		todo := []string{d.Name}
-		for len(todo) > 0 {
-			x := s.def(todo[0])
-			todo = todo[1:]
-			if x.Kind == "struct" {
-				for i := range x.Fields {
-					if x.Fields[i].Optional {
-						if frozen[x.Name] {
-							ok = false
-						} else {
-							x.Fields[i].Optional = false
-							feat["sanitized-dict-struct-optional-field"]++
-						}
-					}
-				}
-			}
-			for _, to := range typeEdges(s, x) {
-				if !seen[to] {
-					seen[to] = true
-					todo = append(todo, to)
-				}
-			}
+			dropDict(d, "dict-struct-reaches-recursion")
 		}
 	}
 	return ok
 }
 
-// leafFields draws the fields of a dictionary leaf struct: primitives (with dictionaries), enums,
-// arrays of primitives, and later leaf structs - nothing optional, nothing recursive.
+// leafFields draws the fields of a dictionary leaf struct: primitives (with dictionaries, some
+// optional), enums, arrays of primitives, and later leaf structs - nothing recursive.
 func (g *sgen) leafFields(d *gDef) {
 	enums := g.names("enum")
 	n := 1 + g.r.Intn(4)
@@ -683,6 +600,10 @@ func (g *sgen) leafFields(d *gDef) {
 			}
 		}
 		f := gField{Name: fmt.Sprintf("F%d", i), Ty: t}
+		if x := g.s.def(t.Ref); (x == nil || x.Kind == "enum") && g.r.Chance(1, 4) {
+			f.Optional = true // optional primitives / arrays inside a dictionary struct (repaired by 82431a4)
+			g.feat["dict-struct-optional-field"]++
+		}
 		d.Fields = append(d.Fields, f)
 		g.classify(d, f)
 	}
@@ -728,9 +649,6 @@ func (g *sgen) assignDictStructs() {
 		}
 		d.Dict = d.Name
 		g.feat["dict-struct"]++
-		for i := range d.Fields {
-			d.Fields[i].Optional = false
-		}
 	}
 }
 
